@@ -171,16 +171,16 @@ theorem found_of_search (hs : List Hdr) (k : Bytes) (i n : Nat) (hsorted : hs.Pa
     rw [e, List.cons_append, List.take_append_drop, ← hd, List.take_append_drop]
   · exact List.getElem?_eq_getElem hi
 
-theorem setHeader_none (m : Msg) (k v : Bytes) (h : searchHeader m.headers k = none) :
-    setHeader m k v =
+theorem setHeaderRaw_none (m : Msg) (k v : Bytes) (h : searchHeader m.headers k = none) :
+    setHeaderRaw m k v =
       { m with headers := sortByKey (m.headers ++ [{ id := m.headers.length + 1, key := k, val := v }]) } := by
-  unfold setHeader; rw [h]
+  unfold setHeaderRaw; rw [h]
 
-theorem setHeader_some (m : Msg) (k v : Bytes) (i n : Nat) (h : Hdr)
+theorem setHeaderRaw_some (m : Msg) (k v : Bytes) (i n : Nat) (h : Hdr)
     (hres : searchHeader m.headers k = some (i, n)) (hget : m.headers[i]? = some h) :
-    setHeader m k v =
+    setHeaderRaw m k v =
       { m with headers := m.headers.take i ++ [{ h with val := v }] ++ m.headers.drop (i + n) } := by
-  unfold setHeader; rw [hres]; simp only [hget]
+  unfold setHeaderRaw; rw [hres]; simp only [hget]
 
 /-- The function on the table that a replacing `message_set_header` computes. -/
 def setF (k v : Bytes) (h : Hdr) (x : Hdr) : Option Hdr :=
@@ -277,15 +277,15 @@ structure TableStep (k v : Bytes) (L L' : List Hdr) : Prop where
   pos : L.any (kmatch k) = true →
     L'.takeWhile (fun x => !kmatch k x) = L.takeWhile (fun x => !kmatch k x)
 
-theorem setHeader_step (m : Msg) (k v : Bytes) (hinv : TInv m.headers) :
-    TInv (setHeader m k v).headers ∧ (setHeader m k v).body = m.body ∧
-    (∀ x ∈ (setHeader m k v).headers, x ∈ m.headers ∨ (x.val = v ∧ (x.key = k ∨ ∃ y ∈ m.headers, y.key = x.key))) ∧
-    TableStep k v (sortById m.headers) (sortById (setHeader m k v).headers) := by
+theorem setHeaderRaw_step (m : Msg) (k v : Bytes) (hinv : TInv m.headers) :
+    TInv (setHeaderRaw m k v).headers ∧ (setHeaderRaw m k v).body = m.body ∧
+    (∀ x ∈ (setHeaderRaw m k v).headers, x ∈ m.headers ∨ (x.val = v ∧ (x.key = k ∨ ∃ y ∈ m.headers, y.key = x.key))) ∧
+    TableStep k v (sortById m.headers) (sortById (setHeaderRaw m k v).headers) := by
   obtain ⟨hs, body⟩ := m
   simp only at hinv ⊢
   cases hres : searchHeader hs k with
   | none =>
-    rw [setHeader_none _ k v hres]
+    rw [setHeaderRaw_none _ k v hres]
     simp only
     have hnone := searchHeader_list hs k hinv.1
     rw [hres] at hnone
@@ -346,7 +346,7 @@ theorem setHeader_step (m : Msg) (k v : Bytes) (hinv : TInv m.headers) :
   | some r =>
     obtain ⟨i, n⟩ := r
     obtain ⟨h, rest, hf⟩ := found_of_search hs k i n hinv.1 hres
-    rw [setHeader_some _ k v i n h hres hf.get]
+    rw [setHeaderRaw_some _ k v i n h hres hf.get]
     simp only
     have hfm := found_filterMap hs k v i n h rest hinv hf
     have hkh : kmatch k h = true := by
